@@ -234,3 +234,8 @@ def check(ctx):
         ctx.ob("R07-i", sv_f, "start_value refuses only when no start value was ever stored", okr, node=rz_,
                detail="" if okr else f"`{norm(rz_)}` is reachable for a task whose start value exists (a value such as None would be reported as 'not started')",
                by=("@exc=AttributeError",))
+
+    # ---- R07-j "the child is cancelled and awaited": the cancellation start() sends to a pending child is delivered by the level-triggered
+    # loop, which must keep itself alive for a member that already has a cancellation on its way (shared with C03/R03-c)
+    from .c03 import delivery_loop
+    delivery_loop(ctx, "R07-j")
